@@ -356,6 +356,9 @@ func main() {
 		m := good("t01", targets[0], "db1", "c1")
 		m.mapping = []mapT{{"db1", "t.db", [][2]string{{"c1", "c1x"}}}}
 		runCase([]oper{mkCreate(c1, "valid"), mkCreate(m, "dot-mapping")}, "corpus: mapping name with '.'")
+		m2 := good("t02", targets[0], "db2", "*")
+		m2.mapping = []mapT{{"a.b", "tdb", nil}}
+		runCase([]oper{mkCreate(c1, "valid"), mkCreate(m2, "dot-mapping")}, "corpus: database-level mapping (no collection entries) with '.' in the source database")
 	}
 	for id := 0; id < a.N; id++ {
 		nops := 3 + r.Intn(10)
@@ -457,7 +460,27 @@ func main() {
 							tag = "two-collection-infos"
 						}
 					case 21:
-						c.mapping, tag = []mapT{{"db1", "t.db", [][2]string{{"c1", "c1x"}}}}, "dot-mapping"
+						// a '.' in any of the four name positions of a mapping, with and without collection entries
+						sdb := "db1"
+						if len(c.dbc) > 0 && c.dbc[0].db != "*" {
+							sdb = c.dbc[0].db
+						}
+						m := mapT{sdb, "tdb", [][2]string{{"c1", "c1x"}}}
+						switch r.Intn(6) {
+						case 0:
+							m.s, m.cm = "a.b", nil
+						case 1:
+							m.t, m.cm = "t.db", nil
+						case 2:
+							m.s = "a.b"
+						case 3:
+							m.t = "t.db"
+						case 4:
+							m.cm = [][2]string{{"c.1", "c1x"}}
+						default:
+							m.cm = [][2]string{{"c1", "c.1x"}}
+						}
+						c.mapping, tag = []mapT{m}, "dot-mapping"
 					}
 				}
 				if len(live) > 0 && r.Intn(20) == 0 {
@@ -528,7 +551,7 @@ func main() {
 		runCase(ops, "random")
 	}
 	out.Extra["handler_panics"] = panics
-	out.Extra["corpus_cases"] = 3
+	out.Extra["corpus_cases"] = 4
 	if err := out.Flush(); err != nil {
 		panic(err)
 	}
